@@ -53,9 +53,9 @@ def _replay(test, overlay, cases, what, repo=None, timeout=900):
 # ================================================================================================ C15
 
 FM_OVERLAY = {"compose/zz_verif_fieldmap_test.go": os.path.join(H, "zz_verif_fieldmap_test.go")}
-FM_SRC = ["S", "N", "AIS", "BPS", "Mk", "XIS", "AX", "AI", "A", "W", "all"]
+FM_SRC = ["S", "N", "AIS", "BPS", "Mk", "XIS", "YIS", "YMkIS", "AX", "AI", "A", "W", "all"]
 FM_TGT = ["S", "N", "AIS", "AMk", "BPS", "MIkS", "MIkN", "MMkIS", "MMkPS", "MMkMk", "Xk", "Xj", "Xkj", "AI", "A", "all"]
-FM_VARS = ["nilB", "nilBP", "nokey", "nilM", "Xptr", "Xmap", "Xmapmap", "Xmapint", "Xstr", "Xnil", "AXint", "AXnil"]
+FM_VARS = ["Yptr", "Ystr", "Ynil", "nilB", "nilBP", "nokey", "nilM", "Xptr", "Xmap", "Xmapmap", "Xmapint", "Xstr", "Xnil", "AXint", "AXnil"]
 FM_SRC2 = ["S", "N", "AIS", "BPS", "Mk", "XIS", "AX", "AI", "W"]
 FM_TGT2 = ["S", "AIS", "AMk", "MIkS", "MIkN", "Xk", "Xj", "Xkj", "AI", "all"]
 FM_VARS2 = ["nilB", "nokey", "Xnil", "Xstr", "AXint"]
@@ -74,8 +74,8 @@ def fm_repo_fixes():
     return sorted(fx & {"D6", "D7", "D16", "D17", "D18", "D19", "D20", "D21", "D24"})
 
 
-def fm_cfg(maxmaps, src, tgt, varset, kind="struct"):
-    return ("CONSTANTS\n  RepoFixes = " + _q(fm_repo_fixes()) + "\n  SrcKind = \"" + kind + "\"\n  MaxMaps = %d\n  SrcNames = %s\n  TgtNames = %s\n  VarSet = %s\nINIT GenInit\nNEXT GenNext\n"
+def fm_cfg(maxmaps, src, tgt, varset, kind="struct", dkind="struct"):
+    return ("CONSTANTS\n  RepoFixes = " + _q(fm_repo_fixes()) + "\n  DstKind = \"" + dkind + "\"\n  SrcKind = \"" + kind + "\"\n  MaxMaps = %d\n  SrcNames = %s\n  TgtNames = %s\n  VarSet = %s\nINIT GenInit\nNEXT GenNext\n"
             "INVARIANT FixedDesignHolds\nINVARIANT Emit\nCHECK_DEADLOCK FALSE\n" % (maxmaps, _q(src), _q(tgt), _q(varset)))
 
 
@@ -83,14 +83,15 @@ FM_MAPSRC = ["ms", "mt", "mn", "miS"]
 FM_MAPTGT = ["S", "N", "AIS", "AMk", "MIkS", "MIkN", "Xk", "Xkj"]
 
 
-def fm_family(name, maxmaps, src, tgt, varset, timeout=900, simulate=None, depth=None, kind="struct"):
+def fm_family(name, maxmaps, src, tgt, varset, timeout=900, simulate=None, depth=None, kind="struct", dkind="struct"):
     cfg = "fm_%s.cfg" % name
-    run = vlib.tlc("FieldMap", cfg, files={cfg: fm_cfg(maxmaps, src, tgt, varset, kind)}, workers=4, timeout=timeout, heap="6g",
+    run = vlib.tlc("FieldMap", cfg, files={cfg: fm_cfg(maxmaps, src, tgt, varset, kind, dkind)}, workers=4, timeout=timeout, heap="6g",
                    simulate=simulate, depth=depth, seed=vlib.SEED if simulate else None)
     cases = _cases_of(run, "FieldMap model check / generation " + name)
     for c in cases:
         c["fam"] = name
         c["src"] = kind
+        c["dst"] = dkind
     flats = {t[0]: json.loads(t[1]) for t in run.tagged("SRCFLAT") if len(t) == 2}
     return cases, run, flats
 
@@ -101,6 +102,10 @@ def fm_decorate(cases, rnd, ri, rs, twice_frac):
         whole = any(len(m["t"]) == 0 for g in c["decl"] for m in g["maps"])
         # the pointer flavour cannot take a Dst VALUE as its whole input (statically rejected): value flavour for those
         c["tp"] = "map" if c.get("src") == "map" else "val" if whole or rnd.random() < 0.6 else "ptr"
+        c["end"] = False
+        if c.get("dst", "struct") != "struct":
+            c["tp"] = {"maps": "dmaps", "mapa": "dmapa", "str": "dstr"}[c["dst"]]
+            c["end"] = rnd.random() < 0.5          # the successor is END itself in half of these cases
         # a second Compile is only tried where no run-time checker is involved: in stream mode both defects end in the same panic
         c["twice"] = (not c.get("chk")) and rnd.random() < twice_frac
         c["ri"], c["rs"] = ri, rs
@@ -175,8 +180,12 @@ def fm_classify(case, reason, line):
             return "stale-closure"
         if "convertTo failed when must succeed" in msg and "not exported" in msg:
             return "map-elem-struct"
+        if "Set using unaddressable value" in msg and any(len(m["t"]) == 0 for g in case["decl"] for m in g["maps"]):
+            return "whole-input-into-map-successor"       # convertTo assigns the whole input into a map value that is not addressable
         if "Set using unaddressable value" in msg:
             return "map-elem-unaddressable"
+        if case.get("var") == "Ystr" and r == "panic":
+            return "non-walkable-interface-implementation-panic"   # a source path through a non-empty interface holding e.g. a named string
         return "%s-%s-%s" % (scope, r, hashlib.sha1(msg[:60].encode()).hexdigest()[:6])
     if r == "wrong-input" and case.get("var") == "sparse":
         return "wrong-input-sparse-chunks"
@@ -221,6 +230,12 @@ def c15(tier, repo=None):
                 ("m3s", 3, ["S", "AI"], ["AIS", "AMk", "AI", "A"], [], {}),
                 # targets below an element of a map of structs BY VALUE: through a by-value struct field (D21), a pointer field, a map field
                 ("mme", 2, ["S", "AIS", "N"], ["MMkPS", "MMkMk", "MMkIS", "MIkS", "MIkN"], [], {}),
+                # successors (lambda / END) of map and string type: whole input from one field (FromField / FromFieldPath) and key by key
+                ("dms", 2, ["M", "S", "AIS", "Mk"], ["all", "k"], ["nokey"], {"dkind": "maps"}),
+                ("dma", 2, ["MA", "S", "AI", "M"], ["all", "k"], [], {"dkind": "mapa"}),
+                ("dst", 1, ["S", "AIS", "BPS", "Mk"], ["all"], ["nilB", "nokey"], {"dkind": "str"}),
+                # source paths through a NON-EMPTY interface type (struct field / map element), walkable and non-walkable implementations
+                ("yi", 2, ["YIS", "YMkIS", "S"], ["S", "AIS", "Xk"], ["Yptr", "Ystr", "Ynil"], {}),
                 # whole-input AddInput (no mappings) before / after field mappings and next to another whole input, both orders
                 ("mw", 2, ["S", "W"], ["S", "AIS", "all"], [], {}),
                 # map[string]any predecessor, stream-native, dense or ONE KEY PER CHUNK; every mapping needs the run-time checker
@@ -232,6 +247,10 @@ def c15(tier, repo=None):
         fams = [("m1", 1, FM_SRC, FM_TGT, FM_VARS, {}),
                 ("m2", 2, FM_SRC, FM_TGT, FM_VARS, {"timeout": 1500}),
                 ("mw", 3, ["S", "W"], ["S", "AIS", "all"], [], {}),
+                ("dms", 3, ["M", "S", "AIS", "Mk"], ["all", "k"], ["nokey", "nilM"], {"dkind": "maps"}),
+                ("dma", 3, ["MA", "S", "AI", "M", "W"], ["all", "k"], [], {"dkind": "mapa"}),
+                ("dst", 1, ["S", "AIS", "BPS", "Mk"], ["all"], ["nilB", "nilBP", "nokey", "nilM"], {"dkind": "str"}),
+                ("yi", 3, ["YIS", "YMkIS", "S"], ["S", "AIS", "Xk"], ["Yptr", "Ystr", "Ynil"], {}),
                 ("mme", 3, ["S", "AIS", "N"], ["MMkPS", "MMkMk", "MMkIS", "MIkS", "MIkN"], [], {}),
                 ("mm", 3, FM_MAPSRC, FM_MAPTGT, [], {"kind": "map", "timeout": 1500}),
                 ("m3", 3, ["S", "AIS", "AX", "N", "AI"], ["AIS", "AMk", "AI", "A", "MIkS", "MIkN", "Xk", "Xkj", "all"], ["AXint"], {"timeout": 1500})]
